@@ -198,8 +198,23 @@ def _streams(s):
         s.sstreams = {}; s.sstreams_owner = s.objs
     return s.sstreams
 
+def _fake_vptr(s, vboff):
+    """a stand-in vtable whose [-3] slot holds the virtual-base (basic_ios) offset, as inlined stream code reads it"""
+    from irsym import Ptr
+    if not hasattr(s, 'fakevt') or s.fakevt_owner is not s.objs:
+        s.fakevt = {}; s.fakevt_owner = s.objs
+    if vboff not in s.fakevt:
+        vt = s.alloc(64, 'global', zero=True, name='fake-stream-vtable')
+        s.store(Ptr(vt.id, 0), I64, vboff); s.fakevt[vboff] = Ptr(vt.id, 24)
+    return s.fakevt[vboff]
+
 def _init_sstream(s, this, os_off, sb_off):
     from irsym import Ptr
+    # vptr(s) of the stream object and a zeroed basic_ios subobject (flags, width, precision, state, ...)
+    ios_off = sb_off + 104
+    s.store(Ptr(this.obj, this.off + os_off), P8, _fake_vptr(s, ios_off - os_off))
+    if os_off != 0: s.store(this, P8, _fake_vptr(s, ios_off))
+    s.memset(Ptr(this.obj, this.off + ios_off), 0, 264)
     for o in range(sb_off + 8, sb_off + 56, 8): s.store(Ptr(this.obj, this.off + o), P8, Ptr(0, 0))
     st = Ptr(this.obj, this.off + sb_off + SB_STRING)
     s.store(st, P8, Ptr(st.obj, st.off + 16)); s.store(Ptr(st.obj, st.off + 8), I64, 0); s.store(Ptr(st.obj, st.off + 16), I8, 0)
